@@ -486,6 +486,7 @@ Spec == Init /\ [][Next]_vars
 -----------------------------------------------------------------------------
 \* Generator: one random parameter choice per action kind (each draw bound once)
 One(S) == {RandomElement(S)}
+HasFutSet == {c \in Consumers : LET v == FindV(sv[c], NextEpoch(now), now) IN v # NONE /\ sv[c][v].d.fut.on}
 GenNext ==
   /\ nops < MaxOps /\ nops' = nops + 1
   /\ \/ (RandomElement(1..2) = 1 /\ \E p \in One(PlanIdx), n \in One(PriceVar) : PlanAdd(p, n))
@@ -493,6 +494,8 @@ GenNext ==
      \/ \E c \in One(Consumers) : \E cr \in One(CreatorsOf(c) \cup {c}), p \in One(PlanIdx), d \in One(Durs \cup {1}), au \in One(BOOLEAN) : Buy(cr, c, p, d, au)
      \/ \E c \in One(Consumers) : \E cr \in One(CreatorsOf(c)), p \in One(PlanIdx), d \in One(Durs) : BuyAdvance(cr, c, p, d)
      \/ \E c \in One(Consumers) : \E cr \in One(CreatorsOf(c)), en \in One(BOOLEAN), p \in One(PlanIdx \cup {""}) : AutoRenew(cr, c, en, p)
+     \* replacement of a pending advance purchase (own generator kind, otherwise rare)
+     \/ (HasFutSet # {} /\ \E c \in One(HasFutSet) : \E p \in One(PlanIdx), d \in One(Durs) : BuyAdvance(c, c, p, d))
      \/ (WithDrain /\ RandomElement(1..4) = 1 /\ \E cr \in One(Buyers), k \in One({0, 50, 120}) : Drain(cr, k))
      \/ (RandomElement(1..2) = 1 /\ Block) \/ (RandomElement(1..2) = 1 /\ Epoch) \/ (RandomElement(1..2) = 1 /\ Stale)
      \/ Month
